@@ -237,6 +237,23 @@ def r2(ctx):
                 for t in n.targets:
                     if isinstance(t, ast.Attribute) and t.attr == "chunked" and tail(t.value) in ("resp", "response"):
                         ctx.bad("C02.R2", key(f, norm(n)), site(f, n), "Response.chunked is overwritten outside the Response class")
+    # the inputs of is_chunked()/should_close() are frozen once start_response has computed self.chunked
+    allowed_rl = {"__init__": "const", "process_headers": "any", "start_response": "const"}
+    for name, f in cls.methods.items():
+        for n in walk_own(f.node):
+            if isinstance(n, (ast.Assign, ast.AugAssign)):
+                tg = n.targets if isinstance(n, ast.Assign) else [n.target]
+                for t in tg:
+                    if isinstance(t, ast.Attribute) and isinstance(t.value, ast.Name) and t.value.id == "self" and t.attr == "response_length":
+                        okk = name in allowed_rl and (allowed_rl[name] == "any" or isinstance(n.value, ast.Constant))
+                        ctx.check("C02.R2", okk, key(f, "response_length-writer|" + norm(n)), site(f, n),
+                                  "Response.response_length is changed in %s after the framing decision was taken: is_chunked() re-evaluated later (sendfile) disagrees with the "
+                                  "`Transfer-Encoding: chunked` header already announced" % name, "response_length only set while headers are processed")
+                    if isinstance(t, ast.Attribute) and isinstance(t.value, ast.Name) and t.value.id == "self" and t.attr == "must_close":
+                        okk = (name == "__init__" and const(n.value, NO) is False) or (name == "force_close" and const(n.value, NO) is True)
+                        ctx.check("C02.R2", okk, key(f, "must_close-writer|" + norm(n)), site(f, n),
+                                  "Response.must_close is written in %s: a force_close() decision of the worker (max_requests, keep-alive queue full, shutting down) can be lost" % name,
+                                  "must_close only raised by force_close()")
     # consumers: util.write(.., chunked) argument and the terminator in close()
     f_w = repo.func(RESP + ".write")
     for c in calls_to(repo, f_w, [UTIL + ".write", UTIL + ".write_nonblock"]):
